@@ -227,6 +227,8 @@ class ShmAllocator:
         """Attach to an existing header in *buf*."""
         self._buf = buf
         self._total_size = total_size
+        if len(buf) < _HEADER_STRUCT.size:
+            raise ValueError(f"Segment of {len(buf)} bytes is too small to hold an SHM header")
         magic, version, data_size, _, _ = _HEADER_STRUCT.unpack_from(buf, 0)
         if magic != _MAGIC:
             raise ValueError(f"Bad SHM magic: {magic!r}")
